@@ -468,6 +468,8 @@ func forDotsCase(ctx *core.Ctx, idx int, res *core.Result) {
 	var sb strings.Builder
 	sb.WriteString("package p\n\n")
 	for i, h := range loopHeaders {
+		// a labelled loop is a labelled statement, not a for statement: unchanged, label and all
+		fmt.Fprintf(&sb, "func labelled%d() {\nL%d:\n\tfor %s {\n\t%s\n\tcontinue L%d\n\t}\n}\n\n", i, i, h, b[1], i)
 		fmt.Fprintf(&sb, "func loop%d() {\n\tfor %s {\n\t%s\n\t}\n}\n\n", i, h, b[1])
 		fmt.Fprintf(&sb, "func notloop%d() {\n\tif c%d {\n\t%s\n\t}\n}\n\n", i, i, b[1])
 	}
